@@ -303,7 +303,7 @@ func discharge(eng *Engine, obls []*Obligation, opt dischargeOpts) {
 				// vacuity smoke test: the assumptions must not be refutable. Models of quantified
 				// assumptions are rarely found, so "sat" or "unknown"/timeout both pass; only a
 				// proof of inconsistency ("unsat") fails the cover.
-				status, out, secs := runSolver(solvers[0], j.file, minInt(opt.timeout, 3))
+				status, out, secs := runSolver(solvers[0], j.file, minInt(opt.timeout, 2))
 				mu.Lock()
 				j.o.Solver = solvers[0].name
 				j.o.Secs = secs
